@@ -68,7 +68,8 @@ def run_cases(imports: str, defs: str, case_type: str, cases: list[str], checker
             f.write(f"Definition cases : list ({case_type}) := [\n")
             f.write(";\n".join(chunk))
             f.write("\n].\n")
-            f.write(f"Eval vm_compute in (failing ({checker}) cases).\n")
+            f.write(f"Definition the_checker : ({case_type}) -> bool := {checker}.\n")
+            f.write("Eval vm_compute in (failing the_checker cases).\n")
         paths.append((k, path))
     fails: list[int] = []
     try:
@@ -77,7 +78,7 @@ def run_cases(imports: str, defs: str, case_type: str, cases: list[str], checker
         for (k, _), out in zip(paths, outs):
             fails.extend(k + i for i in parse_nat_list(out))
     finally:
-        if not keep:
+        if not keep and not os.environ.get('COQRUN_KEEP'):
             shutil.rmtree(d, ignore_errors=True)
     return sorted(fails)
 
